@@ -87,6 +87,7 @@ class FieldCtx:
         self.nia = nia
         self.fmul = z3.Function("fmul", z3.IntSort(), z3.IntSort(), z3.IntSort())
         self.finv = z3.Function("finv", z3.IntSort(), z3.IntSort())
+        self.imul = z3.Function("imul", z3.IntSort(), z3.IntSort(), z3.IntSort())
         self.atoms = {}  # name -> z3 Int
         self.bounds = {}  # name -> upper bound (inclusive)
         self.side = []  # side constraints (ranges, reductions, axioms)
@@ -206,7 +207,9 @@ class FieldCtx:
                 M <= U * aa, M <= U * ab,
                 z3.Implies(ab >= 1, M >= aa), z3.Implies(aa >= 1, M >= ab),
                 z3.Implies(aa == 1, M == ab), z3.Implies(ab == 1, M == aa),
-                r == z3.If(M == 0, 0, z3.If(neg, P - M, M)))))
+                r == z3.If(M == 0, 0, z3.If(neg, P - M, M)),
+                # the same integer product as the machine-integer multiplication of Engine C
+                M == self.imul(aa, ab), self.imul(aa, ab) == self.imul(ab, aa))))
             self.axioms_used.add(9)
         if self.nia:
             # exact (non-linear integer) definition; used only for queries whose argument needs
@@ -281,7 +284,7 @@ class FieldCtx:
         """list of (z3 const, z3 value) for every atom and every reduction variable, computed with
         REAL field arithmetic from the values of the base atoms in env"""
         env = dict(env)
-        pairs = []
+        pairs = list(env.get("__extra__", []))
         for name, v in self.atoms.items():
             pairs.append((v, z3.IntVal(self.eval_atom(name, env))))
         for v, q, l in self.red_defs:
